@@ -21,6 +21,7 @@ type Engine struct {
 	pkg       *ssa.Package
 	intrCache sync.Map
 	extraNoop []string
+	interpret []string // prefixes exempt from the observability no-op treatment (per entry)
 	redirect  map[string]string
 	params    map[string]int64
 
